@@ -102,11 +102,12 @@ type CeremonySim struct {
 	Reliable    map[common.Address]bool         // senders whose txs are never lost or delayed (besides node owners)
 	Included    map[string]int
 	Debug       bool
+	dbgFlips    map[common.Address][]string
 }
 
 func NewCeremonySim(w *World, r *verifutil.Rng, rep *verifutil.Report) *CeremonySim {
 	s := &CeremonySim{W: w, R: r, Rep: rep, Profiles: map[*Replica]*NetProfile{}, queues: map[*Replica][]delayedTx{}, Included: map[string]int{},
-		Reliable: map[common.Address]bool{}}
+		Reliable: map[common.Address]bool{}, dbgFlips: map[common.Address][]string{}}
 	return s
 }
 
@@ -543,6 +544,9 @@ func (s *CeremonySim) submitFlips() {
 				pl.Bad[key] = true
 			}
 			s.Rep.Count("flips_submitted", 1)
+			if s.Debug {
+				s.dbgFlips[a.Addr] = append(s.dbgFlips[a.Addr], fmt.Sprintf("n%d@b%d via %s", tx.AccountNonce, s.blockNo, entry.Name))
+			}
 		}
 		_ = st
 	}
@@ -629,6 +633,25 @@ func (s *CeremonySim) ToLottery() bool {
 			s.Rep.Inconcl("flip lottery calculation of %s did not finish within 20 s", r.Name)
 			return false
 		}
+	}
+	if s.Debug {
+		for a, l := range s.dbgFlips {
+			id := w.Identity(a)
+			if len(id.Flips) < len(l) {
+				inPools := ""
+				for _, r := range w.Replicas {
+					n := 0
+					for _, tx := range r.TxPool.VerifAll() {
+						if senderOf(tx) == a {
+							n++
+						}
+					}
+					inPools += fmt.Sprintf(" %s:%d", r.Name, n)
+				}
+				s.Rep.Note("flips of %s(%s): submitted %v on chain %d required %d stateNonce %d; pools:%s", fmtAddr(a), w.ByAddr[a].Name, l, len(id.Flips), id.RequiredFlips, w.StateNonce(w.ByAddr[a])-1, inPools)
+			}
+		}
+		s.dbgFlips = map[common.Address][]string{}
 	}
 	if s.OnPhase != nil {
 		s.OnPhase("lottery")
